@@ -383,7 +383,13 @@ class QRStage(Stage):
                 dist = SeqLatency(svc["seq"])
             else:
                 dist = ConstantLatency(secs(svc["ticks"]))
-            self.F = Server(name, concurrency=self.model, service_time=dist, queue_policy=policy, downstream=downstream)
+            if cfg.get("via_queue_capacity") and cfg["policy"]["type"] == "fifo":
+                # Server's own convenience path: no policy object, FIFO with queue_capacity
+                self.F = Server(name, concurrency=self.model, service_time=dist, queue_capacity=cfg["policy"].get("cap"),
+                                downstream=downstream)
+                policy = self.policy = self.F.queue.policy
+            else:
+                self.F = Server(name, concurrency=self.model, service_time=dist, queue_policy=policy, downstream=downstream)
             self.cls = "Server"
         elif self.kind == "shifted":
             self.shifts = [tuple(s) for s in cfg["shifts"]]
@@ -430,7 +436,7 @@ class QRStage(Stage):
         self._reset_instant()
 
     def _reset_instant(self):
-        self.f_start = self.f_completion = self.f_raise = self.f_enqueue = False
+        self.f_start = self.f_completion = self.f_raise = self.f_enqueue = self.f_enqueue_empty = False
         self.n_notify = self.n_poll = 0
 
     def entities(self):
@@ -545,6 +551,8 @@ class QRStage(Stage):
         self.ref.commit_push(it, ctx.now_ns, accepted)
         if accepted:
             self.state[rid] = "waiting"
+            if self.waiting == 0:
+                self.f_enqueue_empty = True
             self.waiting += 1
             self.f_enqueue = True
         else:
@@ -722,7 +730,10 @@ class QRStage(Stage):
                     elif self.f_completion:
                         detail = "after-completion"
                     elif self.f_enqueue:
-                        detail = "after-enqueue"
+                        if self.f_enqueue_empty:
+                            detail = "after-enqueue-into-empty-queue" + ("-notified" if self.n_notify else "-not-notified")
+                        else:
+                            detail = "after-enqueue-behind-backlog"
                     else:
                         detail = "idle"
                     if self.kind == "shifted" and self.F.current_capacity != limit:
@@ -772,31 +783,44 @@ class PooledStage(Stage):
 
     def _cross(self):
         F = self.F
-        if (F.available, F.queued, F.rejected, F.completed) != (self.avail, len(self.q), self.n_rej, self.n_done):
+        # a unit freed for a dequeued item may be shown as available or as reserved
+        if F.available not in (self.avail, self.avail - len(self.reinject)) or \
+                (F.queued, F.rejected, F.completed) != (len(self.q), self.n_rej, self.n_done):
             raise V("conserve", self.cls, "counters-ne-ledger",
                     f"component (available,queued,rejected,completed)={(F.available, F.queued, F.rejected, F.completed)} "
-                    f"ledger {(self.avail, len(self.q), self.n_rej, self.n_done)}")
+                    f"ledger {(self.avail, len(self.q), self.n_rej, self.n_done)} ({len(self.reinject)} in hand-over)")
         if F.active != self.pool - self.avail or F.active > self.pool:
-            raise V("limit", self.cls, "active-beyond-pool", f"active {F.active}, pool {self.pool}")
+            raise V("limit", self.cls, "active-beyond-pool", f"active {F.active}, pool {self.pool}, ledger free {self.avail}")
 
     def on_delivery(self, ev, role):
-        ctx = self.ctx
+        ctx, F = self.ctx, self.F
         if isinstance(ev, ProcessContinuation):
             rid = self.rid_of(ev)
-            if self.F.completed == self.n_done:
+            if F.completed == self.n_done:
                 return
             self.move(rid, "service", "done", "completion")
             self.inst.add("completion")
             self.n_done += 1
             self.avail += 1
             ctx.emit(rid, self.next_key, self.cls, fifo=True)
-            if self.q and self.avail > 0:
+            took = len(self.q) - F.queued
+            if took not in (0, 1):
+                raise V("conserve", self.cls, "queue-length-jump-at-completion", f"{len(self.q)} -> {F.queued}")
+            must = bool(self.q) and self.avail - len(self.reinject) > 0
+            may = bool(self.q) and self.avail > 0      # unit of an item in hand-over counted free: either reading
+            if (took and not may) or (must and not took):
+                raise V("strand" if must else "conserve", self.cls,
+                        "completion-did-not-dequeue" if must else "dequeue-without-free-unit",
+                        f"{len(self.q)} queued, {self.avail} units free, {len(self.reinject)} in hand-over, dequeued {took}")
+            if took:
+                ctx.hit("probe.pooled_handover")
                 nxt = self.q.popleft()
                 self.move(nxt, "waiting", "reinject", "dequeue")
                 self.reinject.add(nxt)
             self._cross()
             return
         rid = self.rid_of(ev)
+        full = self.qcap > 0 and len(self.q) >= self.qcap
         if rid in self.reinject:
             # the component re-offers a dequeued item to itself as a new event
             self.reinject.discard(rid)
@@ -804,7 +828,7 @@ class PooledStage(Stage):
                 self.state[rid] = "service"
                 self.avail -= 1
                 self.starts.append(rid)
-            elif self.qcap > 0 and len(self.q) >= self.qcap:
+            elif full:
                 self.state[rid] = "rejected-after-dequeue"
                 self.n_rej += 1
                 ctx.hit("probe.pooled_reinjected_rejected")
@@ -816,6 +840,7 @@ class PooledStage(Stage):
                 self.state[rid] = "waiting"
                 self.q.append(rid)
                 ctx.hit("probe.pooled_reinjected_requeued_alone")
+            self.max_active = max(self.max_active, self.pool - self.avail)
             self._cross()
             return
         self.inst.add("offer")
@@ -825,13 +850,35 @@ class PooledStage(Stage):
         ctx.arrive(rid, self.idx, self.cls)
         if rid in self.state:
             raise V("conserve", self.cls, "offered-twice", f"rid {rid}")
-        if self.avail > 0:
-            if self.reinject:
+        if self.reinject:
+            ctx.hit("probe.pooled_arrival_during_handover")
+        dq, dr = F.queued - len(self.q), F.rejected - self.n_rej
+        if (dq, dr) == (0, 0):
+            outcome = "started"
+        elif (dq, dr) == (1, 0):
+            outcome = "queued"
+        elif (dq, dr) == (0, 1):
+            outcome = "rejected"
+        else:
+            raise V("conserve", self.cls, "offer-not-counted-exactly-once", f"rid {rid}: queued+{dq} rejected+{dr}")
+        hold = "rejected" if full else "queued"
+        if self.avail - len(self.reinject) > 0:
+            legal = ("started",)
+        elif self.avail > 0:
+            legal = ("started", hold)      # the only free unit belongs to an item in hand-over: either reading
+        else:
+            legal = (hold,)
+        if outcome not in legal:
+            raise V("conserve" if outcome != "started" else "limit", self.cls, f"arrival-{outcome}-expected-{legal[0]}",
+                    f"rid {rid}: {outcome} with {self.avail} of {self.pool} units free, {len(self.q)} queued "
+                    f"(queue capacity {self.qcap or 'unlimited'})")
+        if outcome == "started":
+            if self.avail - len(self.reinject) <= 0:
                 ctx.hit("probe.pooled_arrival_overtakes_dequeued")
             self.state[rid] = "service"
             self.avail -= 1
             self.starts.append(rid)
-        elif self.qcap > 0 and len(self.q) >= self.qcap:
+        elif outcome == "rejected":
             self.state[rid] = "rejected"
             self.n_rej += 1
             ctx.hit("probe.queue_full_reject")
@@ -940,8 +987,13 @@ class BatchStage(Stage):
         if self.buf:
             self.n_waited += 1
         if len(self.buf) >= self.size:
-            raise V("strand", self.cls, "full-batch-not-processed",
-                    f"t={prev_ns}ns: {len(self.buf)} items buffered, batch_size={self.size}, clock moves on")
+            # narrow detail for the one configuration in which the first item of a batch already completes it
+            detail = "full-batch-not-processed"
+            if self.size == 1 and len(self.buf) == 1 and self.timeout > 0:
+                detail += "/batch-of-one-arms-timeout-instead"
+            raise V("strand", self.cls, detail,
+                    f"t={prev_ns}ns: {len(self.buf)} items buffered, batch_size={self.size}, "
+                    f"timeout {self.timeout} ticks, clock moves on")
         if self.buf and self.timeout > 0 and prev_ns - self.first_t >= self.timeout * TICK_NS:
             raise V("strand", self.cls, "partial-batch-past-timeout",
                     f"t={prev_ns}ns: oldest buffered item arrived at {self.first_t}ns, timeout {self.timeout} ticks")
@@ -1010,7 +1062,15 @@ class ConveyorStage(Stage):
         ctx.arrive(rid, self.idx, self.cls)
         if rid in self.state:
             raise V("conserve", self.cls, "offered-twice", f"rid {rid}")
-        if self.cap > 0 and len(self.on_belt) >= self.cap:
+        drej = self.F.items_rejected - self.n_rej
+        full = self.cap > 0 and len(self.on_belt) >= self.cap
+        if drej not in (0, 1):
+            raise V("conserve", self.cls, "offer-not-counted-exactly-once", f"rid {rid}: rejected+{drej}")
+        if full and not drej:
+            raise V("limit", self.cls, "accepted-beyond-capacity", f"rid {rid}: {len(self.on_belt)} in transit, capacity {self.cap}")
+        if drej and not full:
+            raise V("conserve", self.cls, "rejected-with-room", f"rid {rid}: {len(self.on_belt)} in transit, capacity {self.cap}")
+        if full:
             self.state[rid] = "rejected"
             self.n_rej += 1
             ctx.hit("probe.queue_full_reject")
